@@ -203,8 +203,10 @@ def run_worker(case, choices):
                 res.violate("C18:worker:%s:recycled-without-limit" % kind, "max_requests=0 but the worker exited (status %r) after %d requests; %s"
                             % (p.status, handled, ctx()))
         elif state["limit_at"] is not None:
-            late_ok = [a for a in state["accepts_after"] if kind in ("gevent", "eventlet") and a[0] <= state["limit_at"] + 1.0 + 1e-6]
-            if handled > limit + (state["open_at_limit"] or 0) + len(late_ok):
+            # (until round 6 the async workers were given one heartbeat period (1 s) to notice the limit; the statement has no such allowance,
+            #  and a fast sequential client fits any number of requests into that second)
+            late_ok = []
+            if handled > limit + (state["open_at_limit"] or 0) + (len(state["accepts_after"]) if kind in ("gevent", "eventlet") else 0):
                 res.violate("C18:worker:%s:handled-too-many" % kind, "the worker handled %d requests; limit %d, %d connections were open when the "
                             "limit was reached; %s" % (handled, limit, state["open_at_limit"], ctx()))
             late = state["accepts_after"]
@@ -212,8 +214,10 @@ def run_worker(case, choices):
                 res.violate("C18:worker:sync:accept-after-limit", "the sync worker accepted %r after reaching its limit at t=%.2f; %s"
                             % (late[:2], state["limit_at"], ctx()))
             if kind in ("gevent", "eventlet") and len(late) > len(late_ok):
-                res.violate("C18:worker:%s:accept-after-limit" % kind, "the async worker accepted connections more than one heartbeat period (1 s) "
-                            "after reaching its limit at t=%.2f: %r; %s" % (state["limit_at"], late[:3], ctx()))
+                beyond = [a for a in late if a[0] > state["limit_at"] + 1.0 + 1e-6]
+                res.violate("C18:worker:%s:accept-after-limit:%s" % (kind, "later" if beyond else "within-heartbeat-period"), "the async worker went on accepting connections after it had reached its "
+                            "limit at t=%.2f (reaching it only clears `alive`; the acceptor runs until the heartbeat loop wakes up, up to 1 s "
+                            "later, and closes the listener): %r; %s" % (state["limit_at"], late[:3], ctx()))
             if kind == "gthread" and len(late) > len(w.addrs):
                 res.violate("C18:worker:gthread:accept-after-limit", "the threaded worker accepted %d connections after reaching its limit "
                             "(at most the main-loop iteration in progress may accept one more per listener): %r; %s" % (len(late), late[:3], ctx()))
